@@ -24,10 +24,12 @@ def classify(kind, msg, tags, o):
         for t in ("class-shadows-import", "field-shadows-import", "pydantic-reserved-key", "attrs-reserved-key"):
             if t in tags:
                 out.add(t)
+    if kind in ("classes", "load", "types", "keys", "fields") and "class-names-collapse" in tags:
+        out.add("class-names-collapse")
     if kind == "render" and "empty-label" in tags:
         out.add("empty-label")
-    if kind == "field-collision":
-        out.add("digit-spelled-collision" if re.search(r"[\['\" ]\d", msg) else "folded-collision")
+    if kind in ("digit-spelled-collision", "folded-collision"):
+        out.add(kind)
     if kind in ("fields", "load", "keys") and "non-identifier-key-char" in tags:
         out.add("non-identifier-key-char")
     if kind in ("keys", "fields", "load") and "leading-underscore" in tags:
